@@ -43,32 +43,33 @@ def never_overdrawn(specs: Sequence[Dict[str, Any]]) -> bool:
     return MA.overdraft_verdict(specs)[0] == "must_accept"
 
 
-def mat(h: History, row_order: str, tz: int = 0) -> Optional[List[Dict[str, Any]]]:
+def mat(h: History, row_order: str, tz: int = 0, price_scale: Any = 1) -> Optional[List[Dict[str, Any]]]:
     """tz != 0: every timestamp written in that UTC offset at an hour where its own calendar date differs from the UTC date"""
     from datetime import datetime, timezone
 
     if not tz:
-        return H.materialize(h, row_order=row_order, uid=True)
+        return H.materialize(h, row_order=row_order, uid=True, price_scale=price_scale)
     h2 = tuple((it[0], it[1], tz) for it in h)
-    return H.materialize(h2, row_order=row_order, uid=True, base=datetime(2020, 3, 1, 18 if tz > 0 else 2, 0, 0, tzinfo=timezone.utc))
+    return H.materialize(h2, row_order=row_order, uid=True, price_scale=price_scale, base=datetime(2020, 3, 1, 18 if tz > 0 else 2, 0, 0, tzinfo=timezone.utc))
 
 
-def build_case(h1: History, second: Optional[int], sch: str, to_date: Optional[date], tz: int = 0) -> Optional[Dict[str, Any]]:
+def build_case(h1: History, second: Optional[int], sch: str, to_date: Optional[date], tz: int = 0, price_scale: Any = 1) -> Optional[Dict[str, Any]]:
     from rp2verif import frdriver as D
 
-    s1 = mat(h1, "reverse", tz)
+    s1 = mat(h1, "reverse", tz, price_scale)
     if s1 is None or not never_overdrawn(s1):
         return None
     assets = {"B1": s1}
     if second is not None:
-        s2 = mat(SECOND[second], "chrono", tz)
+        s2 = mat(SECOND[second], "chrono", tz, price_scale)
         assert s2 is not None and never_overdrawn(s2)
         assets["B2"] = s2
     sheets = {}
     for a in list(assets):
         sheets[a], assets[a] = D.to_sheet(assets[a], a)
-    return {"label": f"{sch} -t {to_date}: {H.hist_str(h1)}" + (f" || B2: {H.hist_str(SECOND[second])}" if second is not None else "") + (f" [all timestamps at UTC{tz / 60:+.0f}h]" if tz else ""),
-            "hist": h1, "second": second, "schedule_name": sch, "tz": tz,
+    return {"label": f"{sch} -t {to_date}: {H.hist_str(h1)}" + (f" || B2: {H.hist_str(SECOND[second])}" if second is not None else "") + (f" [all timestamps at UTC{tz / 60:+.0f}h]" if tz else "")
+            + (f" [prices x {price_scale}]" if price_scale != 1 else ""),
+            "hist": h1, "second": second, "schedule_name": sch, "tz": tz, "price_scale": str(price_scale),
             "assets": assets, "sheets": sheets, "schedule": SCHEDULES[sch], "from": None, "to": to_date, "country": "us", "lang": "en",
             "reports": ["open_positions"], "allow_negative": False}
 
@@ -199,7 +200,7 @@ def judge(st: Stats, case: Dict[str, Any]) -> None:
     st.inc("evaluations")
     res = G.run(case)
     payload = {"case": {"hist": case["hist"], "second": case["second"], "schedule_name": case["schedule_name"], "to": str(case["to"]) if case["to"] else None,
-                        "tz": case.get("tz", 0)}}
+                        "tz": case.get("tz", 0), "price_scale": case.get("price_scale", "1")}}
     tag = case["label"]
     if res["error"]:
         st.violation(dict(payload, signature=f"C15 no report: {res['stage']} / {res['error'].split(':')[0]} / {res.get('where', '')}", what=f"{tag} :: {res['stage']}: {res['error'][:200]}"))
@@ -256,6 +257,13 @@ def cases(tier: str) -> List[Dict[str, Any]]:
                     for m in methods:
                         for td in tds:
                             c = build_case(h, second, m, td)
+                            if c:
+                                out.append(c)
+                if d <= 2:
+                    # the same history with every price x 1/320000 (a token worth a fraction of a cent: per-unit cost ~ 1e-5, many decimals)
+                    for m in ("fifo", "hifo"):
+                        for td in to_dates([s1, H.materialize(SECOND[1], uid=True) or []], "few"):
+                            c = build_case(h, 1, m, td, 0, "1/320000")
                             if c:
                                 out.append(c)
                 if d <= 2:
@@ -332,7 +340,7 @@ def replay(path: str) -> int:
     with open(path, encoding="utf-8") as f:
         p = json.load(f)
     c = p["case"]
-    case = build_case(_to_tuple(c["hist"]), c["second"], c["schedule_name"], date.fromisoformat(c["to"]) if c["to"] else None, c.get("tz", 0))
+    case = build_case(_to_tuple(c["hist"]), c["second"], c["schedule_name"], date.fromisoformat(c["to"]) if c["to"] else None, c.get("tz", 0), Fraction(c.get("price_scale", "1")))
     assert case is not None
     ctx = mp.get_context("fork")
     with ctx.Pool(1, initializer=init) as pool:
